@@ -208,6 +208,10 @@ func (ch *Chain) hookBytes(h M) []byte {
 		var msgs []sdk.Msg
 		for _, m := range absx.List(h["msgs"]) {
 			mm := absx.Map(m)
+			if absx.Str(mm["kind"]) == "withdraw" {
+				msgs = append(msgs, &opchildtypes.MsgInitiateTokenWithdrawal{Sender: c.Addr(name), To: c.Addr(absx.Str(mm["to"])), Amount: coin(c, absx.Str(mm["denom"]), absx.Int(mm["amt"]))})
+				continue
+			}
 			msgs = append(msgs, &banktypes.MsgSend{FromAddress: c.Addr(name), ToAddress: c.Addr(absx.Str(mm["to"])),
 				Amount: sdk.Coins{coin(c, absx.Str(mm["denom"]), absx.Int(mm["amt"]))}})
 		}
@@ -249,6 +253,48 @@ func (ch *Chain) unitsStr(s string) any {
 		return "?" + s
 	}
 	return ch.C.UnitsAny(v)
+}
+
+// withdrawEvents returns every initiate_token_withdrawal event of a result, in emission order.
+func (ch *Chain) withdrawEvents(evs []abci.Event) []M {
+	c := ch.C
+	var out []M
+	for _, e := range evs {
+		if e.Type != opchildtypes.EventTypeInitiateTokenWithdrawal {
+			continue
+		}
+		get := func(k string) string {
+			for _, a := range e.Attributes {
+				if a.Key == k {
+					return a.Value
+				}
+			}
+			return ""
+		}
+		out = append(out, M{"seq": atoi(get(opchildtypes.AttributeKeyL2Sequence)), "from": c.AddrName(get(opchildtypes.AttributeKeyFrom)), "to": c.AddrName(get(opchildtypes.AttributeKeyTo)),
+			"denom": c.DenomName(get(opchildtypes.AttributeKeyDenom)), "base": c.DenomName(get(opchildtypes.AttributeKeyBaseDenom)), "amt": ch.unitsStr(get(opchildtypes.AttributeKeyAmount))})
+	}
+	return out
+}
+
+// depositWithdrawals splits the withdrawals announced by a processed deposit into those made by the hook's own
+// messages and the refund (the last one, present iff the deposit event says success=false).
+func (ch *Chain) depositWithdrawals(evs []abci.Event, success bool) (wd M, hookWds []any) {
+	all := ch.withdrawEvents(evs)
+	hookWds = []any{}
+	wd = M{"some": false}
+	if !success {
+		if len(all) == 0 {
+			return M{"some": false, "missing": true}, hookWds
+		}
+		wd = all[len(all)-1]
+		wd["some"] = true
+		all = all[:len(all)-1]
+	}
+	for _, w := range all {
+		hookWds = append(hookWds, w)
+	}
+	return wd, hookWds
 }
 
 func (ch *Chain) withdrawEvent(evs []abci.Event) M {
@@ -356,8 +402,9 @@ func (ch *Chain) Exec(e M) Outcome {
 				"denom": c.DenomName(get(opchildtypes.AttributeKeyDenom)), "base": c.DenomName(get(opchildtypes.AttributeKeyBaseDenom)), "amt": ch.unitsStr(get(opchildtypes.AttributeKeyAmount)),
 				"height": atoi(get(opchildtypes.AttributeKeyFinalizeHeight)), "success": get(opchildtypes.AttributeKeySuccess) == "true"}
 		}
+		wd, hookWds := ch.depositWithdrawals(r.Events, n != 1 || absx.Bool(ev["success"]))
 		return Outcome{OK: true, Resp: M{"result": map[string]string{"RESPONSE_RESULT_TYPE_SUCCESS": "SUCCESS", "RESPONSE_RESULT_TYPE_NOOP": "NOOP"}[res.Result.String()], "ev": ev,
-			"wd": ch.withdrawEvent(r.Events), "hookGasOK": hookGasOK}}
+			"wd": wd, "hookWds": hookWds, "hookGasOK": hookGasOK}}
 	case "InitiateTokenWithdrawal":
 		r := Deliver(f, ch.Ctx, ch.toMsg(e))
 		if !r.OK {
